@@ -72,11 +72,13 @@ class Event:
 
 
 class GhostSeg:
-    """Summary of the events of one name emitted so far when a loop was cut: a ghost sequence."""
+    """Summary of an unknown number of events of one name (a cut loop, or a callee under contract): ghost
+    sequences, one per argument position."""
 
     def __init__(self, name, seq):
         self.name = name
-        self.seq = seq      # VSeq over SeqS (first arguments of the events)
+        self.seq = seq      # VSeq: the first arguments of the events
+        self.more = {}      # argument position j >= 1 -> VSeq over SeqO
 
 
 class State:
@@ -373,8 +375,8 @@ class Interp:
             return v.t
         if seq_th is T.SeqS and isinstance(v, VRef) and self.is_list(v):
             return self.seq_of(v).t
-        if seq_th is T.SeqO and isinstance(v, VOpaque):
-            return v.t
+        if seq_th is T.SeqO:
+            return self.ctx.obj_term(self, v, node)
         unwrap = getattr(seq_th, 'unwrap', None)
         if unwrap:
             return unwrap(self, v)
